@@ -41,17 +41,19 @@ impl Dependencies for NumberLoop {
             result.append(&mut step.net_dependencies());
         }
 
-        result.append(&mut self.body.net_dependencies());
+        let mut body = self.body.net_dependencies();
+
+        // the counter belongs to the loop: it satisfies what its body needs, and nothing
+        // that stands next to the loop (a closure created after it that uses a captured
+        // variable of the same name still has to capture that variable)
+        if let Some(ref name) = self.name {
+            let counter: super::Dependency = name.into();
+            body.retain(|dependency| !counter.eq_allow_callbacks(dependency).unwrap_or(false));
+        }
+
+        result.append(&mut body);
 
         result
-    }
-
-    fn supplies(&self) -> Vec<super::Dependency> {
-        if let Some(ref name) = self.name {
-            vec![name.into()]
-        } else {
-            vec![]
-        }
     }
 }
 
